@@ -91,6 +91,41 @@ impl BuildRecord {
             });
         }
 
+        // Responses are '|'-separated lines: a string that reaches the wire must not
+        // contain the separator or a line break, or clients read shifted / extra rows
+        for (field, value) in [
+            ("product", Some(&self.product)),
+            ("version", Some(&self.version)),
+            ("build", Some(&self.build)),
+            ("cdn_path", self.cdn_path.as_ref()),
+        ] {
+            if let Some(value) = value
+                && value.chars().any(|c| c == '|' || c.is_control())
+            {
+                return Err(DatabaseError::InvalidField {
+                    field: field.to_string(),
+                    build_id: self.id,
+                    reason: "contains '|' or a control character".to_string(),
+                });
+            }
+        }
+
+        // The build number is served in a DEC:4 column
+        if self.build.parse::<u32>().is_err() || !self.build.chars().all(|c| c.is_ascii_digit()) {
+            return Err(DatabaseError::InvalidField {
+                field: "build".to_string(),
+                build_id: self.id,
+                reason: format!("expected a decimal build number, got '{}'", self.build),
+            });
+        }
+
+        // The keyring is served in a HEX:16 column (empty when absent)
+        if let Some(ref keyring) = self.keyring
+            && !keyring.is_empty()
+        {
+            self.validate_hash("keyring", keyring)?;
+        }
+
         // Validate MD5 hashes (32 hex characters)
         self.validate_hash("build_config", &self.build_config)?;
         self.validate_hash("cdn_config", &self.cdn_config)?;
